@@ -72,7 +72,16 @@ def random_config(a, rnd):
     return opts
 
 
-def sample(gen, cfgs_a, n, sd, stratify=True):
+def compose(g1, g2):
+    """One model with the constraints of both (same variables; the objective of the first)."""
+    m1, m2 = g1["m"], g2["m"]
+    assert m1["vars"] == m2["vars"] and not (m1["dvars"] or m2["dvars"] or m1["compl"] or m2["compl"] or m1["sos"] or m2["sos"])
+    m = dict(m1, cons=m1["cons"] + m2["cons"], lcons=m1["lcons"] + m2["lcons"])
+    return {"kind": "pair", "op": g1["op"] + "+" + g2["op"], "sh": g1["sh"] + "+" + g2["sh"], "pat": g1["pat"],
+            "use": g1["use"] + "+" + g2["use"], "k": "%s+%s" % (g1["k"], g2["k"]), "m": m}
+
+
+def sample(gen, cfgs_a, n, sd, stratify=True, pairs=True):
     """n (model, config) pairs; every operator x use and every operator x pattern at least once when n allows."""
     cfgs, a = cfgs_a
     rnd = random.Random(sd)
@@ -91,9 +100,20 @@ def sample(gen, cfgs_a, n, sd, stratify=True):
         picks.append(rnd.randrange(len(gen)))
     rnd.shuffle(picks)
     picks = picks[:n]
-    cases = []
+    # a quarter of the models are compositions: the constraints of two generated models over the same
+    # three variables in one model (shared subexpressions, mixed contexts, several constraints of a type)
+    bypat = {}
+    for i, g in enumerate(gen):
+        if g["kind"] in ("num", "log", "nest"):
+            bypat.setdefault(tuple(g["pat"]), []).append(i)
+    glist = []
     for j, i in enumerate(picks):
         g = gen[i]
+        if pairs and j % 4 == 3 and g["kind"] in ("num", "log", "nest"):
+            g = compose(g, gen[rnd.choice(bypat[tuple(g["pat"])])])
+        glist.append(g)
+    cases = []
+    for j, g in enumerate(glist):
         r = rnd.random()
         if r < 0.75:
             name, opts = cfgs[j % len(cfgs)]
